@@ -53,6 +53,8 @@ class Model:
         self.rejected = 0
         self.unjudged = {}
         self.dyn = None  # (gen) of the dynamic global function in a.py
+        self.file_dyn = rng.random() < 0.5  # a.py also defines `dyn` at file level: the run-time redefinition replaces a file-level service
+        self.dyn0 = None
 
     def new_func(self, f, i):
         r = self.rng
@@ -86,6 +88,13 @@ class Model:
                 self.live.pop(name, None)
 
     def load_ctx(self, ctx, funcs, dyn_gen=None):
+        if ctx == "file.a":
+            self.dyn = None
+            if self.file_dyn:
+                self.gen += 1
+                self.dyn0 = self.gen
+                if self.declare(ctx, "dyn", self.dyn0, "optional"):
+                    self.dyn = self.dyn0
         for fn in funcs:
             for name in fn["names"]:
                 if fn.get("partial") and self.owner.get(name, ctx) == ctx:
@@ -116,6 +125,8 @@ class Model:
             lines.append(f"    return {{'gen': {fn['gen']}, 'x': kw.get('x')}}")
             lines.append("")
         if f == "a.py":
+            if self.file_dyn:
+                lines += ["@service('pyscript.dyn', supports_response='optional')", "def dyn(**kw):", "    x0 = kw.get('x')", f"    vf.rec('svc', fn='dyn', gen={self.dyn0}, kw=kw)", "    if kw.get('slow'):", "        task.sleep(kw['slow'])", "        vf.rec('svc_end', fn='dyn', x0=x0, x_now=kw.get('x'))", f"    return {{'gen': {self.dyn0}, 'x': kw.get('x')}}", ""]
             lines += DYN.split("\n")
         return "\n".join(lines) + "\n"
 
@@ -257,8 +268,6 @@ def run_case(case):
                 m.files[f] = m.gen_file(f)
                 m.present[f] = True
                 m.load_ctx(ctx, m.files[f])
-                if f == "a.py":
-                    m.dyn = None
                 w.write(f, m.render(f))
                 await w.reload()
             elif k < 0.4:
